@@ -1,30 +1,30 @@
 /-
   C07 — Grøstl-224/256/384/512 conform to the specification (and the Grøstl part of C17: the block
   counter is exact and no checked addition fires below 2^64 blocks).
-  Property theorems and non-vacuity examples only; the lemmas live in CC/Groestl/Lemmas{A,D}.lean,
-  the kernel-evaluated test vectors in CC/Groestl/Vec{256,512}.lean.
+  Property theorems and non-vacuity examples only.  Lemmas:
+    CC/Groestl/LemmasA.lean      layer (a): leaf facts on registers (mul2, MixBytes network, S-box,
+                                 pshufb masks, round constants, transposes)
+    CC/Groestl/LemmasB.lean      registers as byte functions; the specification on function-level states
+    CC/Groestl/LemmasC512.lean   layers (b),(c), 512-bit state: `round = P-round × Q-round`, `tf512 = f`, `of512 = Ω`
+    CC/Groestl/LemmasC1024.lean  layers (b),(c), 1024-bit state: `stepP/stepQ`, `tf1024 = f`, `of1024 = Ω`
+    CC/Groestl/LemmasD.lean      layer (d): buffering, block counter, padding, IV, truncations
+    CC/Groestl/Vec*.lean         the official test vectors, evaluated by the kernel
 
-  FULL STATEMENT (the goal; not yet proved without hypotheses):
+  MAIN RESULT (no hypotheses besides the format limit of the specification):
 
     theorem groestl_conforms (p : Profile) (v : Variant) (msg : List (BitVec 8))
         (hlen : Spec.padBlocks (Spec.blockLen v.bits) msg.length < 2 ^ 64) :
         Model.digest p v msg = .ok (Spec.groestl v.bits msg)
 
-  PROVED: `groestl_conforms_partial` — the same conclusion for all profiles, variants and messages,
-  under the two hypotheses `h512 : Conf comp512 8 rep512`, `h1024 : Conf comp1024 16 rep1024`, i.e.
-  layers (b),(c) of the plan: on the register representation `rep`, `tf512/tf1024 = f` and
-  `of512/of1024 = second half of P(h) ⊕ h`, for all chaining values and blocks.  Everything else —
-  buffering, block counter, the `remaining() <= 8` rule vs. the specification's padding and block
-  count, absence of overflow panics, IV, the four truncations — is proved.  What is missing for
-  `groestl_conforms` is exactly a proof of the two `Conf` records; their ingredients for single
-  rounds are proved for all register contents in CC/Groestl/LemmasA.lean (layer (a)), and the
-  records are validated by evaluation on the official vectors below.
+  `groestl_conforms_partial` (the same statement relative to the two `Conf` records) is kept as the
+  message-level half of the proof; `conf512`, `conf1024` discharge its hypotheses.
 -/
 import CC.Groestl.LemmasA
 import CC.Groestl.LemmasD
+import CC.Groestl.LemmasC512
+import CC.Groestl.LemmasC1024
+import CC.Groestl.Vec256
 import CC.Groestl.Vec512
-import CC.Groestl.VecConf
-import CC.Groestl.VecConf1024
 namespace CC.Thm.C07
 open CC CC.Buffer CC.Groestl CC.Groestl.Model
 
@@ -76,6 +76,33 @@ theorem groestl_conforms_partial
     simp only [Spec.groestl, Spec.blockLen, Spec.omega, List.drop_drop]
     rfl
 
+/-- Layers (b),(c) as property statements: on the register representation of chaining values,
+    `Compressor512::input` is the specification's compression function `f` … -/
+theorem tf512_is_f (h m : List (BitVec 8)) (hh : h.length = 64) (hm : m.length = 64) :
+    comp512.input (rep512 h) m = rep512 (Spec.f 8 h m) := conf512.tf h m hh hm
+
+/-- … and `Compressor512::finalize_dirty` returns, in words 4..7, the last 32 bytes of `P(h) ⊕ h`. -/
+theorem of512_is_omega (h : List (BitVec 8)) (hh : h.length = 64) :
+    leWords ((comp512.finalizeDirty (rep512 h)).2.drop 4) = (Spec.xorBytes (Spec.P 8 h) h).drop 32 :=
+  conf512.of h hh
+
+/-- The same for `Compressor1024`. -/
+theorem tf1024_is_f (h m : List (BitVec 8)) (hh : h.length = 128) (hm : m.length = 128) :
+    comp1024.input (rep1024 h) m = rep1024 (Spec.f 16 h m) := conf1024.tf h m hh hm
+
+theorem of1024_is_omega (h : List (BitVec 8)) (hh : h.length = 128) :
+    leWords ((comp1024.finalizeDirty (rep1024 h)).2.drop 8) = (Spec.xorBytes (Spec.P 16 h) h).drop 64 :=
+  conf1024.of h hh
+
+/-- **C07.**  For every build profile (with rustc's overflow checks in `debug`), each of the four hash
+    types and every message whose padded length is below 2^64 blocks (the specification's own
+    limit), the one-shot digest computed by the model of `groestl-aesni` returns normally and equals
+    the Grøstl specification's digest. -/
+theorem groestl_conforms (p : Profile) (v : Variant) (msg : List (BitVec 8))
+    (hlen : Spec.padBlocks (Spec.blockLen v.bits) msg.length < 2 ^ 64) :
+    Model.digest p v msg = .ok (Spec.groestl v.bits msg) :=
+  groestl_conforms_partial conf512 conf1024 p v msg hlen
+
 /-- C17, Grøstl part: after absorbing `msg ++ data` (in two `update` calls here, hence by induction in
     any number) the block counter is `⌊n/b⌋`, the buffer holds the `n mod b` trailing bytes, and the
     checked `block_counter += 1` does not fire — for every length with `⌊n/b⌋ < 2^64`. -/
@@ -103,33 +130,12 @@ example : some (Spec.groestl 256 []) =
 example : some (Spec.groestl 512 []) =
     bytesOfHex "6d3ad29d279110eef3adbd66de2a0345a77baede1557f5d099fce0c03d6dc2ba8e6d4a6633dfbd66053c20faa87d1a11f39a7fbe4a6c2f009801370308fc4ad8" :=
   spec_512_empty
-/-- Model (debug profile: all overflow checks active): Grøstl-256(""), Grøstl-512("") -/
-example : outOpt (Model.digest .debug .g256 []) =
-    bytesOfHex "1a52d11d550039be16107f9c58db9ebcc417f16f736adb2502567119f0083467" := model_256_empty
-example : outOpt (Model.digest .debug .g512 []) =
-    bytesOfHex "6d3ad29d279110eef3adbd66de2a0345a77baede1557f5d099fce0c03d6dc2ba8e6d4a6633dfbd66053c20faa87d1a11f39a7fbe4a6c2f009801370308fc4ad8" :=
-  model_512_empty
-/-- the conclusion of `groestl_conforms_partial` holds on these inputs (so its hypotheses are not
-    contradictory with the model and the specification as evaluated): -/
-example : Model.digest .debug .g256 [] = .ok (Spec.groestl 256 []) := by
-  have h1 := model_256_empty
-  have h2 := spec_256_empty
-  cases hd : Model.digest .debug .g256 [] with
-  | ok a => rw [hd] at h1; simp only [outOpt] at h1; rw [← h2] at h1; injection h1 with h1; rw [h1]
-  | err => rw [hd] at h1; simp [outOpt, bytesOfHex] at h1; cases h1
-  | panic w => rw [hd] at h1; simp [outOpt, bytesOfHex] at h1; cases h1
-/-- the two hypotheses, instantiated at the IV and the padded empty message (`Conf.tf`) and at the
-    resulting chaining value (`Conf.of`), hold by evaluation — for both compressors: -/
-example : comp512.input (rep512 (Spec.iv 256 64)) (Spec.pad 64 []) =
-    rep512 (Spec.f 8 (Spec.iv 256 64) (Spec.pad 64 [])) := conf512_tf_instance
-example : leWords ((comp512.finalizeDirty (rep512 (Spec.f 8 (Spec.iv 256 64) (Spec.pad 64 [])))).2.drop (8 / 2)) =
-    (Spec.xorBytes (Spec.P 8 (Spec.f 8 (Spec.iv 256 64) (Spec.pad 64 [])))
-      (Spec.f 8 (Spec.iv 256 64) (Spec.pad 64 []))).drop (4 * 8) := conf512_of_instance
-example : comp1024.input (rep1024 (Spec.iv 512 128)) (Spec.pad 128 []) =
-    rep1024 (Spec.f 16 (Spec.iv 512 128) (Spec.pad 128 [])) := conf1024_tf_instance
-example : leWords ((comp1024.finalizeDirty (rep1024 (Spec.f 16 (Spec.iv 512 128) (Spec.pad 128 [])))).2.drop (16 / 2)) =
-    (Spec.xorBytes (Spec.P 16 (Spec.f 16 (Spec.iv 512 128) (Spec.pad 128 [])))
-      (Spec.f 16 (Spec.iv 512 128) (Spec.pad 128 []))).drop (4 * 16) := conf1024_of_instance
+/-- Model (debug profile: all overflow checks active): by `groestl_conforms` the model yields the
+    same official digests -/
+example : Model.digest .debug .g256 [] = .ok (Spec.groestl 256 []) :=
+  groestl_conforms .debug .g256 [] (by decide)
+example : Model.digest .debug .g512 [] = .ok (Spec.groestl 512 []) :=
+  groestl_conforms .debug .g512 [] (by decide)
 /-- the length hypothesis is satisfiable far beyond 2^32 bits: -/
 example : Spec.padBlocks 64 (2 ^ 40) < 2 ^ 64 := by decide
 example : Spec.padBlocks 128 (2 ^ 70) < 2 ^ 64 := by decide
